@@ -165,35 +165,47 @@ static nitro::options::group& group_for(nitro::options::parser& p, std::size_t k
     return p.group(k % 3 == 1 ? "g1" : "g2", "a group");
 }
 
+// Declaration ORDER must not influence parsing: the order in which the three kinds and the entries of each kind are declared is
+// derived from a hash of the declaration itself (deterministic per case, different across cases).
 static void declare_into(nitro::options::parser& p, const decl_t& d, std::set<std::string>& have)
 {
     std::size_t k = have.size();
-    for (auto& o : d.os)
-    {
-        if (!have.insert(o.name).second) continue;
+    std::size_t h = 1469598103934665603ull;
+    for (auto& o : d.os) for (unsigned char c : o.name) h = (h ^ c) * 1099511628211ull;
+    for (auto& o : d.ms) for (unsigned char c : o.name) h = (h ^ c) * 1099511628211ull;
+    for (auto& o : d.ts) for (unsigned char c : o.name) h = (h ^ c) * 1099511628211ull;
+    auto decl_o = [&](const odecl& o) {
+        if (!have.insert(o.name).second) return;
         auto& x = group_for(p, k++).option(o.name, "d");
         if (o.has_sh) x.short_name(o.sh);
         if (o.has_env) x.env(o.env);
         if (o.has_def) x.default_value(o.def);
         if (o.opt) x.optional();
-    }
-    for (auto& o : d.ms)
-    {
-        if (!have.insert(o.name).second) continue;
+    };
+    auto decl_m = [&](const mdecl& o) {
+        if (!have.insert(o.name).second) return;
         auto& x = group_for(p, k++).multi_option(o.name, "d");
         if (o.has_sh) x.short_name(o.sh);
         if (o.has_env) x.env(o.env);
         if (o.has_def) x.default_value(o.def);
         if (o.opt) x.optional();
-    }
-    for (auto& o : d.ts)
-    {
-        if (!have.insert(o.name).second) continue;
+    };
+    auto decl_t_ = [&](const tdecl& o) {
+        if (!have.insert(o.name).second) return;
         auto& x = group_for(p, k++).toggle(o.name, "d");
         if (o.has_sh) x.short_name(o.sh);
         if (o.has_env) x.env(o.env);
         x.default_value(o.def);
         if (o.rev) x.allow_reverse();
+    };
+    auto all_o = [&] { std::size_t n = d.os.size(); for (std::size_t i = 0; i < n; i++) decl_o(d.os[(i + h % (n ? n : 1)) % n]); };
+    auto all_m = [&] { std::size_t n = d.ms.size(); for (std::size_t i = 0; i < n; i++) decl_m(d.ms[(n - 1 - i + (h / 7) % (n ? n : 1)) % n]); };
+    auto all_t = [&] { std::size_t n = d.ts.size(); for (std::size_t i = 0; i < n; i++) decl_t_(d.ts[(i + (h / 13) % (n ? n : 1)) % n]); };
+    switch ((h / 5) % 3)
+    {
+    case 0: all_o(); all_m(); all_t(); break;
+    case 1: all_t(); all_o(); all_m(); break;
+    default: all_m(); all_t(); all_o(); break;
     }
     if (d.allowed == "~") p.accept_positionals();
     else p.accept_positionals(static_cast<std::size_t>(std::atol(d.allowed.c_str())));
